@@ -19,7 +19,7 @@ BUDGET = {"quick": 300, "thorough": 3000}
 META = {
     "rule": "every labelled simple graph with >=1 edge on 2-5 sites (71 + 1023 graphs; spinful builders on graphs touching <=4 sites), spinless 6-site graphs in thorough; per graph: edges in "
     "ascending / descending / mixed orientation x two list orders, site labels as ints / 2-tuples / strings, coefficients as scalars / dicts keyed in either orientation / callables with "
-    "bond- and site-dependent values (rotating over the graphs); builders: spinless (Z2, U1) and spinful (Z2, U1, Z2Z2, U1U1). non-trivial = graph with a site of degree >= 2",
+    "bond- and site-dependent values, and mixed forms in which only one coefficient varies (rotating over the graphs); builders: spinless (Z2, U1) and spinful (Z2, U1, Z2Z2, U1U1). non-trivial = graph with a site of degree >= 2",
     "bounds": {"quick": "<=4 sites all builders and all six edge-listing variants; 5 sites spinless (and spinful sub-graphs touching <=4 sites) with two variants", "thorough": "5 sites all variants; spinless 6 sites sliced"},
     "assumptions": [
         "Jordan-Wigner matrices on all lattice modes are the reference; tolerance 1e-10 relative to the largest coefficient",
@@ -69,6 +69,19 @@ def coefficient_forms(edges, form, spinful):
         MM = {s: 0.4 for s in sites}
         kw = dict(t=1.25, mu=0.4)
         kw.update(dict(U=3.5) if spinful else dict(V=0.75))
+    elif form == "mixed-mu":
+        # uniform bonds and interaction, site-dependent chemical potential only
+        tt = {e: 1.25 for e in edges}
+        VV = {e: 0.75 for e in edges}
+        UU = {s: 3.5 for s in sites}
+        kw = dict(t=1.25, mu=dict(MM))
+        kw.update(dict(U=3.5) if spinful else dict(V=0.75))
+    elif form == "mixed-u":
+        # uniform hopping and chemical potential, site-dependent interaction (spinless: bond-dependent V)
+        tt = {e: 1.25 for e in edges}
+        MM = {s: 0.4 for s in sites}
+        kw = dict(t=1.25, mu=0.4)
+        kw.update(dict(U=lambda s: UU[s]) if spinful else dict(V={(b, a): v for (a, b), v in VV.items()}))
     elif form == "dict":
         # bond dicts keyed in the REVERSED orientation, site dicts
         kw = dict(t={(b, a): v for (a, b), v in tt.items()}, mu=dict(MM))
@@ -245,7 +258,7 @@ def run_group(ctx, group):
     orients = ("asc", "desc", "mixed")
     orders = ("fwd", "rev")
     kinds = ("int", "tuple", "str")
-    forms = ("scalar", "dict", "callable")
+    forms = ("scalar", "dict", "callable", "mixed-mu", "mixed-u")
     for gi, es in enumerate(all_graphs(n)):
         if gi % nch != k:
             continue
@@ -257,7 +270,7 @@ def run_group(ctx, group):
             for order in orders:
                 v += 1
                 lk = kinds[(gi + v) % 3]
-                form = forms[(gi + 2 * v) % 3]
+                form = forms[(gi + 2 * v) % 5]
                 edges = variant_edges(es, orient, order, lk)
                 for sig, det in site_info_failures(edges, st):
                     st.violation(sig, {"kind": "siteinfo", "edges": edges}, det)
